@@ -699,6 +699,15 @@ func init() {
 				}
 			}
 			us = append(us, c15Envelopes(), c15Wire())
+			// a connection that drops while a request of the node registered on it is being served
+			// must not wedge the pool (all interleavings; a deadlock is a violation)
+			wb := 2
+			if tier == "thorough" {
+				wb = 3
+			}
+			for _, scen := range []string{"close-vs-rehost", "close-vs-rehost-same", "close-vs-peer", "close-vs-host-update"} {
+				us = append(us, c10SerialNamed("no-wedge", vh.Memory, scen, wb))
+			}
 			n := 4
 			if tier == "thorough" {
 				n = 12
